@@ -225,7 +225,18 @@ fn check<T: Scalar>(cx: &Ctx, xs: &[f64], t: usize, got: Option<T>, big: f64, ou
     out.maxi(&format!("max_deviation_over_scale/{}/{}", cx.clause, v.name), if dev.is_finite() { dev } else { f64::MAX });
     if !(dev <= cx.tol) {
         let n = v.kind.n().unwrap_or(1);
-        let pred = if matches!(v.kind, Kind::Vst(_) | Kind::Vsct(_)) && super::welford_residue_explains(&v.kind, xs, t, g.f(), T::EPS) { "explained_by_running_m2_rounding_residue" } else { "any" };
+        let mut pred = if matches!(v.kind, Kind::Vst(_) | Kind::Vsct(_)) && super::welford_residue_explains(&v.kind, xs, t, g.f(), T::EPS) { "explained_by_running_m2_rounding_residue" } else { "any" };
+        if let (Kind::Welford(_), true, "flat") = (v.kind, e == 0.0, cx.clause) {
+            // sqrt of the running m2's rounding residue: each update perturbs m2 by O(eps x level x
+            // spread) (a running sum of squares would be perturbed by eps x level^2)
+            let lo = xs[..=t].iter().fold(f64::MAX, |m, x| m.min(*x));
+            let hi = xs[..=t].iter().fold(f64::MIN, |m, x| m.max(*x));
+            let unit = T::EPS * big * (hi - lo) * ((t + 1) as f64).sqrt();
+            out.maxi(&format!("welford_flat_var_residue_over_eps_level_spread_sqrt_steps/{}", T::NAME), g.f() * g.f() / unit);
+            if g.f() * g.f() <= 4.0 * unit {
+                pred = "std_is_sqrt_of_m2_residue_le_4_eps_level_spread_sqrt_steps";
+            }
+        }
         out.violation(
             v.name,
             cx.clause,
@@ -274,7 +285,10 @@ fn drift<T: Scalar>(v: &V, xs: &[f64], out: &mut TrialOut) {
 }
 
 fn flat<T: Scalar>(v: &V, prefix: &[f64], c: f64, flat_len: usize, out: &mut TrialOut) {
-    let cx = Ctx { v, clause: "flat", tol: if T::NAME == "f32" { 1e-2 } else { 1e-4 } };
+    // the statement's 1e-4 carries no scalar qualifier: it is applied as written to the views the flat
+    // clause names; for the others (whose flat-window answer is the reference's decaying transient)
+    // f32 gets the only f32 figure the statement gives
+    let cx = Ctx { v, clause: "flat", tol: if T::NAME == "f32" && !v.flat_named { 1e-2 } else { 1e-4 } };
     let Ok(mut inst) = guarded(|| build_plain::<T>(&Spec::leaf(v.kind))) else { return };
     let n = v.kind.n().unwrap_or(1);
     let mut xs = prefix.to_vec();
@@ -324,7 +338,8 @@ impl Monitor for C16 {
         let n = super::jitter_n(cfg, n, 2, 50, &mut rng);
         let rep = idx / (25 * nl.len() as u64);
         let v = view(vi, n, &mut rng);
-        let f32_run = cfg.tier == Tier::Thorough && rep % 8 >= 6;
+        // f32: repetitions 6, 7 of 16 in thorough; 4, 5 of 6 in quick
+        let f32_run = if cfg.tier == Tier::Thorough { rep % 8 >= 6 } else { rep >= 4 };
         out.key(mix(hash_str(&format!("{:?}{}{}", v.kind, rep, f32_run)), rng.clone().next()));
         if rep % 2 == 0 {
             // drift clause
@@ -344,8 +359,24 @@ impl Monitor for C16 {
         } else {
             // flat clause
             let wide = rep % 4 == 3;
-            let plen = rng.usize(3 * n + 5, 40 * n + 200);
-            let mut prefix = if wide { gen::gen(*rng.pick(&[Class::Uniform, Class::Spike, Class::Blocks]), n, plen, &mut rng) } else { three_decades(plen, rng.coin(), &mut rng) };
+            let mut plen = rng.usize(3 * n + 5, 40 * n + 200);
+            // a third of the prefixes sits at a high level with a small spread (the residue of a sum
+            // of squares scales with the level, that of a sum of deviations with the spread)
+            // (f32: windowed views only - a recursive ratio view fed 1000 +- 0.06 in f32, where one ulp is
+            // 6e-5, divides quantities that vanish into the last bits)
+            let narrow = !wide && !(f32_run && v.recursive) && rng.chance(if f32_run { 2 } else { 1 }, 3);
+            if narrow && f32_run {
+                plen = rng.usize(1000, 3000);
+            }
+            let level = *rng.pick(&[1000.0, 250.0, 12345.0]);
+            let spread = *rng.pick(&[0.125, 1.0]);
+            let mut prefix = if wide {
+                gen::gen(*rng.pick(&[Class::Uniform, Class::Spike, Class::Blocks]), n, plen, &mut rng)
+            } else if narrow {
+                (0..plen).map(|_| level + spread * (rng.unit53() - 0.5)).collect()
+            } else {
+                three_decades(plen, rng.coin(), &mut rng)
+            };
             if wide {
                 let s = 2f64.powi(rng.range(0, 20) as i32);
                 for x in prefix.iter_mut() {
@@ -356,11 +387,18 @@ impl Monitor for C16 {
             if c == 0.0 && matches!(v.kind, Kind::Roc(_)) {
                 c = 7.0;
             }
+            if narrow {
+                c = level + spread * 0.5;
+            }
             // mostly N+1..3N identical values; one flat trial in four holds the value for thousands of
             // updates (stale residue that is amplified slowly, by a decaying normaliser, shows only then)
             // (not for LaguerreRSI: CU/(CU+CD) of four stages that converge to the same value is a
             // ratio of vanishing quantities for which the statement makes no flat-window claim)
-            let flat_len = if rng.chance(1, 4) && !matches!(v.kind, Kind::LagRsi(_)) { rng.usize(1500, 3000) } else { n + 1 + rng.usize(0, 2 * n) };
+            // (nor, in f32, for TrendFlex / ReFlex: slope / rms of a filter that has converged to the held
+            // value to the last bit is 0 / (decaying) there, while the exact ratio of the two vanishing
+            // quantities tends to a non-zero constant)
+            let ratio32 = f32_run && matches!(v.kind, Kind::TrendFlex(_) | Kind::ReFlex(_));
+            let flat_len = if rng.chance(1, 4) && !matches!(v.kind, Kind::LagRsi(_)) && !ratio32 { rng.usize(1500, 3000) } else { n + 1 + rng.usize(0, 2 * n) };
             if idx % 43 == 0 {
                 out.sample(format!("flat: {} after a {} prefix of {} values, then {} x {:?}", Spec::leaf(v.kind).show(), if wide { "wide-range" } else { "three-decade" }, plen, flat_len, c));
             }
@@ -380,12 +418,13 @@ impl Monitor for C16 {
             v.push(format!("{}/drift/f64", w.name));
             if w.flat_named {
                 v.push(format!("{}/flat/f64", w.name));
+                v.push(format!("{}/flat/f32", w.name));
             }
         }
         v
     }
     fn rule(&self) -> String {
-        "trial = (one of 25 views; N; clause; value grid dyadic or tenths; scalar f64, or f32 in thorough). drift: three-decade stream (values in [1,1000], non-zero steps in [1/8,100]) of 1e5 (quick) / 1e6 (thorough) values (shorter for O(N)-per-update and recursive views), f64 output vs exact reference at 200 checkpoints and each of the last 2N steps, 1e-6 of natural scale (f32: 1e-2, 1e4 values). flat: three-decade or wide-range (x 2^0..2^20) volatile prefix then N+1..3N copies of c in {1, 1000, 1/8, 0.1, 1/3, 123.456, 7, 0}, every step whose window is flat, 1e-4 of scale. Reference: exact batch oracle over the recent inputs for windowed views; the C11 reference model (SuperSmoother/Roofing: a fresh f64 instance of the code) restarted on the last S(N) inputs for recursive ones. distinct = distinct (view, N, clause, scalar, stream)".into()
+        "trial = (one of 25 views; N; clause; value grid dyadic or tenths; scalar f64 or f32). drift: three-decade stream (values in [1,1000], non-zero steps in [1/8,100]) of 1e5 (quick) / 1e6 (thorough) values (shorter for O(N)-per-update and recursive views), f64 output vs exact reference at 200 checkpoints and each of the last 2N steps, 1e-6 of natural scale (f32: 1e-2, 1e4 values). flat: three-decade or wide-range (x 2^0..2^20) volatile prefix then N+1..3N copies of c in {1, 1000, 1/8, 0.1, 1/3, 123.456, 7, 0}, every step whose window is flat, 1e-4 of scale (f32: 1e-4 for the views the statement names, 1e-2 for the others; a third of the prefixes - two thirds, 1000..3000 values long, for windowed views at f32 - sit at a high level with a small spread: 1000 / 250 / 12345 +- 1/16 or 1/2). Reference: exact batch oracle over the recent inputs for windowed views; the C11 reference model (SuperSmoother/Roofing: a fresh f64 instance of the code) restarted on the last S(N) inputs for recursive ones. distinct = distinct (view, N, clause, scalar, stream)".into()
     }
     fn assumptions(&self) -> Vec<String> {
         vec![
